@@ -12,7 +12,13 @@ Definition touches (l : lock) (c : command) : bool :=
 (* an acquire by the execution that holds row l (a later heartbeat in the same batch may have moved its expiry) *)
 Definition creates (l : lock) (c : command) : bool :=
   match c with
-  | AcquireLock r e _ _ _ => String.eqb r (l_res l) && String.eqb e (l_exec l)
+  | AcquireLock r e p t _ => String.eqb r (l_res l) && String.eqb e (l_exec l) && String.eqb p (l_proc l) && (t =? l_ttl l)
+  | _ => false
+  end.
+(* an acquire that wrote exactly row l *)
+Definition acq_exact (l : lock) (c : command) : bool :=
+  match c with
+  | AcquireLock r e p t x => String.eqb r (l_res l) && String.eqb e (l_exec l) && String.eqb p (l_proc l) && (t =? l_ttl l) && (x =? l_exp l)
   | _ => false
   end.
 
@@ -34,12 +40,15 @@ Fixpoint uniq_b (l : list string) : bool :=
 
 (* codes: 901 two holders of one resource; 902 a lock row disappeared or changed although its lease had not
    run out on the server clock and its holder did nothing; 903 a lock row appeared that no acquire created
-   (or a heartbeat did more than extend a lease) *)
+   (or a heartbeat did more than extend a lease): a row that is new or changed is exactly the row an acquire of
+   the batch wrote (resource, execution, process, ttl, expiry), or that row with its expiry moved by a heartbeat
+   of the batch, or an old row with its expiry moved by a heartbeat *)
 Definition c09_exec (now : Z) (before : db) (cmds : list command) (after : db) : list Z :=
   (if uniq_b (map l_res (locks after)) then [] else [901]) ++
   (if forallb (fun l => existsb (lock_eqb l) (locks after) || (l_exp l <=? now) || existsb (touches l) cmds)
               (locks before) then [] else [902]) ++
-  (if forallb (fun l' => existsb (lock_eqb l') (locks before) || existsb (creates l') cmds ||
+  (if forallb (fun l' => existsb (lock_eqb l') (locks before) || existsb (acq_exact l') cmds ||
+                        (existsb (creates l') cmds && existsb (hb_for l') cmds) ||
                         (existsb (hb_for l') cmds && existsb (same4b l') (locks before)))
               (locks after) then [] else [903]).
 
